@@ -5,7 +5,7 @@
 // cluster.ControlKey(18, …): the table kfake itself would advertise (optionally capped with
 // kfake.MaxVersions) with the focal key rewritten to an arbitrary [min,max], removed, or removed
 // together with the Produce key; requests above the advertised ApiVersions max are answered the
-// KIP-511 way (UNSUPPORTED_VERSION, v0 body, only key 18). The header version of every request frame
+// KIP-511 way (UNSUPPORTED_VERSION, v0 body, only key 18; 0..4 when the script advertises no usable range). The header version of every request frame
 // that reaches the broker side is recorded.
 //
 //	op:   neg <kind> <key> <cmax> <via> <kfcap> <bmode> <bmin> <bmax> <umax> <umin> <sasl>
@@ -16,14 +16,16 @@
 //	        bmode  adv (focal key advertised as [bmin,bmax]) | adv0 (same, Produce key removed) |
 //	               miss (focal key removed) | miss0 (focal and Produce keys removed) | noapi (client pinned
 //	               pre-0.10: its MaxVersions has no ApiVersions key, nothing is advertised)
-//	        umax   nil (kgo.MaxVersions(nil)) | def (client default) | miss (Stable minus the key) | <n> (Stable with key=n)
+//	        umax   nil (kgo.MaxVersions(nil)) | d<n> / dmiss (client default, which holds n / nothing for the key) |
+//	               miss (Stable minus the key) | <n> (Stable with key=n)
 //	        umin   nil | miss (a MinVersions without the key) | <n>
 //	        sasl   0 | 1 (PLAIN)
 //	out:  <focal> ; <frames>
 //	        focal  w <v>[,<v>…]   distinct header versions of the focal request frames, ascending
 //	               e <class>      nothing written: unknownkey | tooold | usermin | other (class `-` for flow/internal kinds)
-//	        frames every other frame seen, `key:version:cmax:bmode:bmin:bmax:umax:umin` (bounds as configured
-//	               by this harness for that key; bmode `pre` = written before any advertisement), sorted, distinct
+//	        frames every other frame seen, `key:version:cmax:bmode:bmin:bmax:umax:umin:tag` (bounds as configured
+//	               by this harness for that key; bmode `pre` = written before any advertisement; tag i = ApiVersions
+//	               of connection setup, r = anything else), sorted, distinct; `-` when there is none
 package main
 
 import (
@@ -189,6 +191,13 @@ type cfg struct {
 
 func (c cfg) emit() {
 	k := kindByName(c.kind)
+	if c.umax == "def" { // the client's default table, resolved so that the driver knows the bound
+		if v, ok := kversion.Stable().LookupMaxKeyVersion(k.key); ok {
+			c.umax = "d" + strconv.Itoa(int(v))
+		} else {
+			c.umax = "dmiss"
+		}
+	}
 	hx.Emit("neg %s %d %d %s %s %s %d %d %s %s %s", c.kind, k.key, cmaxOf(k.key), c.via, c.kfcap, c.bmode, c.bmin, c.bmax, c.umax, c.umin, hx.B(c.sasl))
 }
 
@@ -272,7 +281,7 @@ func randCfg(r *hx.Rng, k *kind) cfg {
 	if c.bmode == "noapi" && k.key == 18 {
 		c.umax = "miss"
 	}
-	if r.Chance(8) {
+	if r.Chance(8) && k.vias[0] != "flow" { // a produce / fetch flow needs a broker that serves the rest of the flow
 		names := make([]string, 0, len(kfcaps))
 		for n := range kfcaps {
 			names = append(names, n)
@@ -284,6 +293,9 @@ func randCfg(r *hx.Rng, k *kind) cfg {
 		c.sasl = true
 	} else if r.Chance(10) && c.bmode != "noapi" {
 		c.sasl = true
+	}
+	if c.sasl { // kfake capped below 1.0 has no SASLAuthenticate and cannot serve a SASL client
+		c.kfcap = "-"
 	}
 	return c
 }
@@ -314,7 +326,7 @@ func gen(a hx.Args) {
 				for _, bmin := range bmins {
 					for _, umax := range umaxs {
 						for _, umin := range umins {
-							if r.Intn(3) != 0 {
+							if r.Intn(5) != 0 {
 								continue
 							}
 							cfg{kn, k.vias[len(k.vias)-1], "-", "adv", bmin, bmax, umax, umin, k.key == 17 || k.key == 36}.emit()
@@ -357,7 +369,7 @@ func gen(a hx.Args) {
 		}
 	}
 	// 3. random placements on the shaped kinds
-	for i := 0; i < a.N(700, 12000); i++ {
+	for i := 0; i < a.N(450, 9000); i++ {
 		k := &kinds[r.Intn(len(kinds))]
 		randCfg(r, k).emit()
 	}
@@ -371,6 +383,7 @@ type frame struct {
 	version int16
 	pre     bool // written before an ApiVersions answer was delivered on a client that has none yet
 	init    bool // ApiVersions of connection setup
+	kip     bool // init frame written after a KIP-511 refusal on this connection
 }
 
 type env struct {
@@ -388,6 +401,8 @@ type env struct {
 	maxConn  int
 	frames   []frame
 	initDone map[int]bool
+	kip      map[int]bool
+	lastAt   time.Time
 	advDone  bool // some ApiVersions answer with a key table has been delivered to the current client
 	focalCh  chan struct{}
 }
@@ -400,7 +415,7 @@ func getEnv(kfcap string, sasl bool) *env {
 	if e, ok := envs[name]; ok {
 		return e
 	}
-	e := &env{name: name, net: &sim.Net{}, initDone: map[int]bool{}}
+	e := &env{name: name, net: &sim.Net{}, initDone: map[int]bool{}, kip: map[int]bool{}}
 	portCtr++
 	opts := []kfake.Opt{kfake.NumBrokers(1), kfake.Ports(portCtr), kfake.SeedTopics(1, "t"), kfake.ListenFn(e.net.ListenFn)}
 	if kfcap != "-" {
@@ -424,6 +439,16 @@ func getEnv(kfcap string, sasl bool) *env {
 	cl.Close()
 	e.base = resp.ApiKeys
 	e.baseRsp = resp
+	// A frame whose first two bytes are not an api key of the codec is not a Kafka request (raw SASL bytes sent
+	// when no SASLHandshake key is advertised). kfake dereferences kmsg.RequestForKey(key) == nil on such a
+	// frame and takes the process down, so the connection is cut before kfake reads it.
+	e.net.Fault = func(key int16, _ int, _ []byte) sim.Action {
+		if kmsg.RequestForKey(key) == nil {
+			hx.St.Inc("non-request-frame-cut")
+			return sim.KillBefore
+		}
+		return sim.Pass
+	}
 	e.net.OnRequest = e.onRequest
 	e.net.OnResponse = e.onResponse
 	c.ControlKey(18, e.apiVersions)
@@ -512,15 +537,15 @@ func (e *env) apiVersions(kreq kmsg.Request) (kmsg.Response, error, bool) {
 	req := kreq.(*kmsg.ApiVersionsRequest)
 	resp := req.ResponseKind().(*kmsg.ApiVersionsResponse)
 	ok, lo, hi := e.advertised(18)
-	if ok && hi >= 0 && req.Version > hi || req.Version > 4 {
+	if !ok || hi < 0 { // the script advertises no usable ApiVersions range: it behaves like kfake, 0..4
+		lo, hi = 0, 4
+	}
+	if req.Version > hi {
 		// KIP-511: v0 body, UNSUPPORTED_VERSION, only the ApiVersions key
 		resp.Version = 0
 		resp.ErrorCode = 35
 		k := kmsg.NewApiVersionsResponseApiKey()
 		k.ApiKey, k.MinVersion, k.MaxVersion = 18, lo, hi
-		if !ok || hi < 0 {
-			k.MinVersion, k.MaxVersion = 0, 4
-		}
 		resp.ApiKeys = append(resp.ApiKeys, k)
 		return resp, nil, true
 	}
@@ -534,7 +559,7 @@ func (e *env) apiVersions(kreq kmsg.Request) (kmsg.Response, error, bool) {
 }
 
 func (e *env) onRequest(conn int, key int16, fr []byte, _ sim.Action) {
-	if len(fr) < 4 {
+	if len(fr) < 4 || kmsg.RequestForKey(key) == nil {
 		return
 	}
 	v := int16(binary.BigEndian.Uint16(fr[2:]))
@@ -549,7 +574,9 @@ func (e *env) onRequest(conn int, key int16, fr []byte, _ sim.Action) {
 	f := frame{conn: conn, key: key, version: v, pre: !e.advDone}
 	if key == 18 && !e.initDone[conn] {
 		f.init = true
+		f.kip = e.kip[conn]
 	}
+	e.lastAt = time.Now()
 	e.frames = append(e.frames, f)
 	focal := key == e.focalKey
 	if e.focalKey == 18 {
@@ -575,16 +602,26 @@ func (e *env) onResponse(conn int, key int16, fr []byte, delivered bool) {
 	if code := int16(binary.BigEndian.Uint16(fr[4:])); code != 35 {
 		e.initDone[conn] = true
 		e.advDone = true
+	} else {
+		e.kip[conn] = true
 	}
 }
 
 // ---------------------------------------------------------------- one case
 
 func userVersions(spec string, key int16, dropApi bool) (*kversion.Versions, bool) {
-	switch spec {
-	case "nil":
+	if spec == "nil" {
 		return nil, true
-	case "def":
+	}
+	if strings.HasPrefix(spec, "d") { // client default; the op line states what it holds for the key
+		want := spec[1:]
+		got := "miss"
+		if v, ok := kversion.Stable().LookupMaxKeyVersion(key); ok {
+			got = strconv.Itoa(int(v))
+		}
+		if got != want || dropApi {
+			panic("bad-default")
+		}
 		return nil, false
 	}
 	v := kversion.Stable()
@@ -624,7 +661,7 @@ func runCase(t []string) string {
 	if k == nil || hx.Atoi(t[2]) != int64(k.key) || hx.Atoi(t[3]) != int64(cmaxOf(k.key)) {
 		return "bad-op"
 	}
-	if _, ok := kfcaps[c.kfcap]; !ok && c.kfcap != "-" {
+	if _, ok := kfcaps[c.kfcap]; !ok && c.kfcap != "-" || c.kfcap != "-" && (c.sasl || c.via == "flow") {
 		return "bad-op"
 	}
 	okVia := false
@@ -637,6 +674,15 @@ func runCase(t []string) string {
 	e := getEnv(c.kfcap, c.sasl)
 	noapi := c.bmode == "noapi"
 	var opts []kgo.Opt
+	if strings.HasPrefix(c.umax, "d") {
+		want := "miss"
+		if v, ok := kversion.Stable().LookupMaxKeyVersion(k.key); ok {
+			want = strconv.Itoa(int(v))
+		}
+		if c.umax[1:] != want || noapi {
+			return "bad-op"
+		}
+	}
 	umaxV, set := userVersions(c.umax, k.key, noapi)
 	if noapi && (umaxV == nil || umaxV.HasKey(18)) {
 		return "bad-op"
@@ -690,20 +736,35 @@ func runCase(t []string) string {
 		done <- err
 	}()
 	var err error
-	grace := 400 * time.Millisecond
-	if c.via == "flow" {
-		grace = 1200 * time.Millisecond // a flow that cannot write its request keeps trying; nothing more to see
-	}
-	select {
-	case err = <-done:
-	case <-focalCh:
+	start := time.Now()
+	tick := time.NewTicker(20 * time.Millisecond)
+wait:
+	for {
 		select {
 		case err = <-done:
-		case <-time.After(grace):
+			break wait
+		case <-focalCh:
+			select { // the focal frame is on the wire; give the exchange a moment to finish
+			case err = <-done:
+			case <-time.After(300 * time.Millisecond):
+			}
+			break wait
+		case <-tick.C:
+			// a flow / setup that cannot write its request keeps retrying in the background: stop once the wire
+			// has been quiet for a while (or, with periodic retries, after a fixed time)
+			e.mu.Lock()
+			last := e.lastAt
+			e.mu.Unlock()
+			if last.Before(start) {
+				last = start
+			}
+			if time.Since(last) > 500*time.Millisecond || time.Since(start) > 2500*time.Millisecond {
+				hx.St.Inc("ended.by-quiescence")
+				break wait
+			}
 		}
-	case <-time.After(grace + 1500*time.Millisecond):
-		hx.St.Inc("slow.no-focal-frame")
 	}
+	tick.Stop()
 	cancel()
 	cl.Close()
 
@@ -764,10 +825,15 @@ func runCase(t []string) string {
 	}
 	for _, s := range []struct{ n, v string }{{"umax", c.umax}, {"umin", c.umin}} {
 		cls := s.v
-		if cls != "nil" && cls != "miss" && cls != "def" {
+		if strings.HasPrefix(cls, "d") {
+			cls = "default"
+		} else if cls != "nil" && cls != "miss" {
 			cls = "n"
 		}
 		hx.St.Inc(s.n + "." + cls)
+	}
+	if len(incs) == 0 {
+		return focalOut + " ; -"
 	}
 	return focalOut + " ; " + strings.Join(incs, " ")
 }
@@ -778,7 +844,17 @@ func (e *env) describe(c *cfg, focalKey int16, f frame, umaxV *kversion.Versions
 	switch {
 	case c.bmode == "noapi":
 		bmode = "noapi"
-	case f.init && f.pre:
+	case f.init && f.kip: // the refusal named the range of key 18: advertised, or 0..4 when the script advertises none
+		e.mu.Lock()
+		e.cur = c
+		ok, lo, hi := e.advertised(18)
+		e.cur = nil
+		e.mu.Unlock()
+		if !ok || hi < 0 {
+			lo, hi = 0, 4
+		}
+		bmode, bmin, bmax = "adv", lo, hi
+	case f.init && f.pre, f.init && !f.kip:
 		bmode = "pre"
 	default:
 		e.mu.Lock()
@@ -817,7 +893,11 @@ func (e *env) describe(c *cfg, focalKey int16, f frame, umaxV *kversion.Versions
 			umin = "miss"
 		}
 	}
-	return fmt.Sprintf("%d:%d:%d:%s:%d:%d:%s:%s", f.key, f.version, cmaxOf(f.key), bmode, bmin, bmax, umax, umin)
+	tag := "r"
+	if f.init {
+		tag = "i"
+	}
+	return fmt.Sprintf("%d:%d:%d:%s:%d:%d:%s:%s:%s", f.key, f.version, cmaxOf(f.key), bmode, bmin, bmax, umax, umin, tag)
 }
 
 func main() {
